@@ -94,6 +94,8 @@ def run(pid, tier):
         if b == 'default':
             sub = [i for i in range(len(scen)) if scen[i].get('qcap', 16) >= 4]
             pc.validate(rep, 'C01', [scen[i] for i in sub], [obs[i] for i in sub], 'C01-default', fields=pc.FIELDS['C08'] | {'overrun-executed'})
+    # the optional interface callbacks (error, control, flush, reset) left NULL: only the sanitizer / watchdog verdict counts
+    pc.execute(rep, scen[::7], 'default', 'C01null', env={'DRV_NULL_CALLBACKS': '1'})
     def nontriv(sc):
         st = [b for c in sc['chunks'] for b in c]
         return any(b == 0 or b >= 128 for b in st) or len(sc['chunks']) > 2 or len(st) >= sc['buf']
